@@ -166,16 +166,16 @@ func c20(c *core.Ctx) {
 			var what string
 			switch {
 			case ce.Name == "sync/atomic.AddUint64":
-				addr = call.Call.Args[0]
-				what = "add:" + strings.Join(fl.Paths(call.Call.Args[1]), "|")
+				addr = rawArgs(call)[0]
+				what = "add:" + strings.Join(fl.Paths(rawArgs(call)[1]), "|")
 			case ce.Func != nil && core.IsModuleFunc(ce.Func) && ce.Func.Signature.Recv() != nil && len(call.Call.Args) > 0 && ce.Func != getCS:
 				tn := ssax.TypeName(ce.Func.Signature.Recv().Type())
 				if tn != "server.PacketStats" && tn != "server.DroppedTotal" {
 					return
 				}
-				addr = call.Call.Args[0]
+				addr = rawArgs(call)[0]
 				var as []string
-				for _, a := range call.Call.Args[1:] {
+				for _, a := range rawArgs(call)[1:] {
 					as = append(as, strings.Join(fl.Paths(a), "|"))
 				}
 				what = ce.Func.Name() + "(" + strings.Join(as, ",") + ")"
@@ -245,7 +245,7 @@ func c20(c *core.Ctx) {
 		loads := map[string]bool{}
 		ssax.Instrs(f, false, func(_ *ssa.Function, in ssa.Instruction) {
 			if call, ok := in.(*ssa.Call); ok && ssax.ResolveCallee(&call.Call).Name == "sync/atomic.LoadUint64" {
-				_, path := statPath(call.Call.Args[0], nil)
+				_, path := statPath(rawArgs(call)[0], nil)
 				// the value must be stored into the same path of the copy
 				okStore := false
 				for _, r := range *call.Referrers() {
@@ -310,7 +310,7 @@ func c20(c *core.Ctx) {
 		got := map[string]int{}
 		ssax.Instrs(add, false, func(_ *ssa.Function, in ssa.Instruction) {
 			if call, ok := in.(*ssa.Call); ok && r.Reachable(call) && ssax.ResolveCallee(&call.Call).Name == "sync/atomic.AddUint64" {
-				if fa, isFA := call.Call.Args[0].(*ssa.FieldAddr); isFA {
+				if fa, isFA := rawArgs(call)[0].(*ssa.FieldAddr); isFA {
 					got[ssax.FieldOf(fa).Name()]++
 				}
 			}
@@ -462,7 +462,7 @@ func c20(c *core.Ctx) {
 		got := map[string]bool{}
 		ssax.Instrs(md, false, func(_ *ssa.Function, in ssa.Instruction) {
 			if call, ok := in.(*ssa.Call); ok && r.Reachable(call) && ssax.ResolveCallee(&call.Call).Name == "sync/atomic.AddUint64" {
-				if fa, isFA := call.Call.Args[0].(*ssa.FieldAddr); isFA {
+				if fa, isFA := rawArgs(call)[0].(*ssa.FieldAddr); isFA {
 					got[ssax.FieldOf(fa).Name()] = true
 				}
 			}
